@@ -20,13 +20,18 @@ const (
 
 func init() {
 	Registry["C05"] = Spec{
-		Pkgs: map[string][]string{"v2": {"lexer", "astparser", "astprinter", "astvisitor", "ast", "cachectl"}},
+		Pkgs: map[string][]string{"v2": {"lexer", "astparser", "astprinter", "astvisitor", "ast", "cachectl", "identkeyword"}},
 		Run:  runC05,
 		Explanation: "Decides the structural half of 'lexing terminates and every parsed kind is printed': every unbounded loop of the lexer, the tokenizer and the Cache-Control lexer/parser advances the input position (directly or through a function that does so on all its paths) on every cycle that returns to the loop head, and has an exit guarded by an end-of-input test (EOF case, bounds test, or the negation of a character-class predicate that rejects EOF); " +
 			"the value-kind dispatches of the printer / JSON writer / copier / comparer cover all nine value kinds or fail loudly; every printer callback is registered and the Definition/Extension sibling handlers of each type kind set the same printer state and print the same parts of the node; every content field of an AST node that the parser fills is read on the print path (printer callbacks, the SimpleWalker that drives them, their callees), per Document slice the node ends up in. " +
 			"every cycle of every unbounded loop of the recursive-descent parser consumes a real (known non-EOF) token before it returns to the loop head, or leaves the loop (consume / consume-or-report summaries with and without a peeked token, report.HasErrors() edges). " +
 			"Not decided: absence of panics on arbitrary bytes, positions inside the input, print∘parse round-trip equality as values, limit accounting (value level), depth of recursion.",
 		Mutants: []Mutant{
+			{Name: "keyword table reads the first byte before looking at the length (seeded change C05-22)", File: "v2/pkg/lexer/identkeyword/identkeyword.go", Rule: "C05-R9", Key: "KeywordFromLiteral/literal[0]-under-length-test",
+				Old: "func KeywordFromLiteral(literal []byte) IdentKeyword {\n\tswitch len(literal) {", New: "func KeywordFromLiteral(literal []byte) IdentKeyword {\n\tif c := literal[0]; c < 'd' || c > 'u' {\n\t\treturn UNDEFINED\n\t}\n\tswitch len(literal) {"},
+			{Name: "VariableDefinitionsBefore answers for the first operation that has variables (seeded change C05-21)", File: "v2/pkg/ast/ast_variable_definition.go", Rule: "C05-R10", Key: "VariableDefinitionsBefore/return-in-search-loop-follows-a-test-of-the-ref",
+				Old: "\t\tfor j, k := range d.OperationDefinitions[i].VariableDefinitions.Refs {\n\t\t\tif k == variableDefinition {\n\t\t\t\treturn j != 0\n\t\t\t}\n\t\t}\n",
+				New: "\t\tfor j, k := range d.OperationDefinitions[i].VariableDefinitions.Refs {\n\t\t\tif k >= 0 {\n\t\t\t\treturn j != 0\n\t\t\t}\n\t\t}\n"},
 			{Name: "spread flag survives an opening brace (seeded changes C05-1 / C05-11)", File: "v2/pkg/astparser/tokenizer.go", Rule: "C05-R8", Key: "depth-arm-clears-spread-flag:keyword.LBRACE",
 				Old: "\t\t\t\tlocalDepthPeak = localDepth\n\t\t\t}\n\t\t\tlastWasSpread = false\n", New: "\t\t\t\tlocalDepthPeak = localDepth\n\t\t\t}\n"},
 			{Name: "definition keywords reset the field accounting inside selection sets (the repaired defect F26)", File: "v2/pkg/astparser/tokenizer.go", Rule: "C05-R8", Key: "TokenizeWithLimits/identifier-arm-counts-every-field",
@@ -119,6 +124,12 @@ func runC05(r *fw.Run) {
 
 	// ---- R8 limit accounting ---------------------------------------------------------------------------
 	limitCountsEveryField(r)
+
+	// ---- R9 constant indexes --------------------------------------------------------------------------
+	c05ConstantIndexUnderLength(r, []string{"identkeyword", "lexer", "astparser"})
+
+	// ---- R10 sibling-position helpers -----------------------------------------------------------------
+	c05SearchReturnsOnMatch(r)
 }
 
 // checkProgress implements the loop-progress rule for one package and returns the number of loops examined.
@@ -1713,4 +1724,257 @@ func limitCountsEveryField(r *fw.Run) {
 	end := in.RunStmts(arm.Body, nil)
 	r.Check(end == nil || end.Must("accounted"), "C05-R8", fi.Name()+"/identifier-arm-counts-every-field", p.Pos(arm.Pos()), "every path through the identifier arm counts the identifier, or knows it is outside a selection set / the name after a spread",
 		"some identifiers leave the arm uncounted without the depth having been looked at: a field (or alias) that is spelled like a definition keyword — query, mutation, subscription, fragment are legal field names — is not counted and resets the per-definition bookkeeping, so the fields after it are not counted either: `{ query a a a … }` passes ParseWithLimits whatever MaxFields says")
+}
+
+// c05ConstantIndexUnderLength (R9): the keyword tables and the lexer look at single bytes of a literal through constant
+// indexes (literal[0] == 'o' && literal[1] == 'n'). An empty literal does reach them — the EOF token of a truncated
+// document, an empty string token — so every constant-index read of a []byte parameter must be dominated by a length test
+// that covers the index: a clause of `switch len(p)` whose values are all > k, or a condition len(p) > k / >= k+1 / == n
+// (n > k) / != 0. The first byte read of an unguarded literal panics with "index out of range" on exactly those inputs.
+func c05ConstantIndexUnderLength(r *fw.Run, pkgs []string) {
+	p := r.Prog
+	r.Rule("C05-R9", "every constant-index read p[k] of a []byte parameter in the keyword table and the lexer is dominated by a length test covering k (a clause of switch len(p), or a len(p) comparison)")
+	n := 0
+	for _, pkgAlias := range pkgs {
+		for _, fi := range p.Funcs(pkgAlias) {
+			info := fi.Info()
+			sig := fi.Obj.Type().(*types.Signature)
+			params := map[types.Object]bool{}
+			for i := 0; i < sig.Params().Len(); i++ {
+				if sl, ok := sig.Params().At(i).Type().Underlying().(*types.Slice); ok {
+					if b, isB := sl.Elem().Underlying().(*types.Basic); isB && b.Kind() == types.Uint8 {
+						params[sig.Params().At(i)] = true
+					}
+				}
+			}
+			if len(params) == 0 {
+				continue
+			}
+			lenOf := func(e ast.Expr) types.Object { // len(p) → p
+				c, ok := ast.Unparen(e).(*ast.CallExpr)
+				if !ok || fw.Builtin(info, c) != "len" || len(c.Args) != 1 {
+					return nil
+				}
+				id, isID := ast.Unparen(c.Args[0]).(*ast.Ident)
+				if !isID || !params[info.Uses[id]] {
+					return nil
+				}
+				return info.Uses[id]
+			}
+			atLeast := func(st *fw.State, o types.Object, k int) { // len(o) >= k
+				for i := 1; i <= k && i <= 64; i++ {
+					st.Set("len>=" + itoa(i) + ":" + o.Name())
+				}
+			}
+			constInt := func(e ast.Expr) (int, bool) {
+				v, ok := fw.ConstVal(info, e)
+				if !ok {
+					return 0, false
+				}
+				k := 0
+				for _, ch := range v {
+					if ch < '0' || ch > '9' {
+						return 0, false
+					}
+					k = k*10 + int(ch-'0')
+				}
+				return k, true
+			}
+			hasIdx := false
+			ord := map[string]int{}
+			in := fw.NewInterp(fi)
+			in.H = fw.Hooks{
+				Cond: func(e ast.Expr, branch bool, st *fw.State) {
+					a := fw.Atom(info, e, branch)
+					switch a.Kind {
+					case "NonEmpty":
+						if id, ok := ast.Unparen(a.X).(*ast.Ident); ok && params[info.Uses[id]] {
+							atLeast(st, info.Uses[id], 1)
+						}
+					case "Eq", "Ge", "Gt":
+						if o := lenOf(a.X); o != nil {
+							if k, ok := constInt(a.Y); ok {
+								if a.Kind == "Gt" {
+									k++
+								}
+								atLeast(st, o, k)
+							}
+						}
+					}
+				},
+				Case: func(tag ast.Expr, vals []ast.Expr, match bool, st *fw.State) {
+					o := lenOf(tag)
+					if o == nil || !match || len(vals) == 0 {
+						return
+					}
+					min := -1
+					for _, v := range vals {
+						k, ok := constInt(v)
+						if !ok {
+							return
+						}
+						if min < 0 || k < min {
+							min = k
+						}
+					}
+					atLeast(st, o, min)
+				},
+				Node: func(nd ast.Node, st *fw.State) {
+					for _, t := range fw.WriteTargets(info, nd) {
+						if id, ok := ast.Unparen(t).(*ast.Ident); ok && params[info.Uses[id]] {
+							for i := 1; i <= 64; i++ {
+								st.Kill("len>=" + itoa(i) + ":" + id.Name)
+							}
+						}
+					}
+					ix, ok := nd.(*ast.IndexExpr)
+					if !ok || !in.Final() {
+						return
+					}
+					id, isID := ast.Unparen(ix.X).(*ast.Ident)
+					if !isID || !params[info.Uses[id]] {
+						return
+					}
+					k, isC := constInt(ix.Index)
+					if !isC {
+						return
+					}
+					hasIdx = true
+					n++
+					ordKey := id.Name + "[" + itoa(k) + "]"
+					ord[ordKey]++
+					r.Check(st.Must("len>="+itoa(k+1)+":"+id.Name), "C05-R9", fi.Name()+"/"+ordKey+"-under-length-test#"+itoa(ord[ordKey]), p.Pos(ix.Pos()), id.Name+"["+itoa(k)+"] in "+fi.Name()+" is read only where len("+id.Name+") > "+itoa(k)+" is known",
+						"the byte is read on a path that has not established the length: an empty (or shorter) literal — the EOF token of a document truncated inside a definition header, an empty string token — panics with 'index out of range' instead of being reported as a parse error")
+				},
+			}
+			in.Run(nil)
+			_ = hasIdx
+		}
+	}
+	r.Expect("C05-R9", "constant-index reads of []byte parameters", n, 100)
+}
+
+// c05SearchReturnsOnMatch (R10): the printer decides separators (", " "(" ")" " ") by asking package ast where a node sits
+// among its siblings (VariableDefinitionsBefore/After, SelectionsAfter…, ArgumentsBefore/After). The helpers that search
+// for the node in a loop must answer from inside the loop only after a condition that depends on the searched ref has been
+// tested on that path; a return reached merely because the container is non-empty answers for the wrong container — the
+// second operation of a document is printed as `query B($b: Int, ($c: Int)`, which the parser rejects.
+func c05SearchReturnsOnMatch(r *fw.Run) {
+	p := r.Prog
+	r.Rule("C05-R10", "in every sibling-position helper of package ast that the printer calls and that searches in a loop, a return inside the loop is reached only through a condition that depends on the searched ref (an int parameter)")
+	called := map[*types.Func]bool{}
+	for _, fi := range p.Funcs("astprinter") {
+		info := fi.Info()
+		fw.WalkAll(fi.Decl.Body, func(nd ast.Node) bool {
+			if c, ok := nd.(*ast.CallExpr); ok {
+				if fn := fw.Callee(info, c); fn != nil && fn.Pkg() != nil && fn.Pkg().Path() == fw.PkgPath("ast") {
+					called[fn] = true
+				}
+			}
+			return true
+		})
+	}
+	// one level of delegation inside package ast (SelectionsAfterField → SelectionsAfter)
+	for _, fi := range p.Funcs("ast") {
+		if !called[fi.Obj] {
+			continue
+		}
+		info := fi.Info()
+		fw.WalkAll(fi.Decl.Body, func(nd ast.Node) bool {
+			if c, ok := nd.(*ast.CallExpr); ok {
+				if fn := fw.Callee(info, c); fn != nil && fn.Pkg() == fi.Obj.Pkg() && p.FuncOf(fn) != nil {
+					called[fn] = true
+				}
+			}
+			return true
+		})
+	}
+	n := 0
+	for _, fi := range p.Funcs("ast") {
+		if !called[fi.Obj] {
+			continue
+		}
+		sig := fi.Obj.Type().(*types.Signature)
+		if sig.Results().Len() != 1 {
+			continue
+		}
+		if b, ok := sig.Results().At(0).Type().Underlying().(*types.Basic); !ok || b.Kind() != types.Bool {
+			continue
+		}
+		intParams := map[types.Object]bool{}
+		for i := 0; i < sig.Params().Len(); i++ {
+			if b, ok := sig.Params().At(i).Type().Underlying().(*types.Basic); ok && b.Info()&types.IsInteger != 0 {
+				intParams[sig.Params().At(i)] = true
+			}
+		}
+		if len(intParams) == 0 {
+			continue
+		}
+		info := fi.Info()
+		inLoop := map[*ast.ReturnStmt]bool{}
+		var walk func(nd ast.Node, depth int)
+		walk = func(nd ast.Node, depth int) {
+			ast.Inspect(nd, func(m ast.Node) bool {
+				switch x := m.(type) {
+				case *ast.FuncLit:
+					return false
+				case *ast.ForStmt:
+					if x != nd {
+						walk(x.Body, depth+1)
+						return false
+					}
+				case *ast.RangeStmt:
+					if x != nd {
+						walk(x.Body, depth+1)
+						return false
+					}
+				case *ast.ReturnStmt:
+					if depth > 0 {
+						inLoop[x] = true
+					}
+				}
+				return true
+			})
+		}
+		walk(fi.Decl.Body, 0)
+		if len(inLoop) == 0 {
+			continue
+		}
+		d := fw.NewPureDeriver(fi)
+		isSearched := func(e ast.Expr) bool {
+			id, ok := e.(*ast.Ident)
+			return ok && intParams[info.Uses[id]]
+		}
+		ord := 0
+		in := fw.NewInterp(fi)
+		in.H = fw.Hooks{
+			Cond: func(e ast.Expr, branch bool, st *fw.State) {
+				if d.Derives(e, isSearched) {
+					st.Set("ref-tested")
+				}
+			},
+			Case: func(tag ast.Expr, vals []ast.Expr, match bool, st *fw.State) {
+				if tag != nil && match && d.Derives(tag, isSearched) {
+					st.Set("ref-tested")
+				}
+			},
+			Node: func(nd ast.Node, st *fw.State) {
+				switch nd.(type) {
+				case *ast.RangeStmt, *ast.ForStmt:
+					st.Kill("ref-tested")
+				}
+			},
+			Exit: func(ret *ast.ReturnStmt, lit *ast.FuncLit, st *fw.State) {
+				if lit != nil || ret == nil || !in.Final() || !inLoop[ret] {
+					return
+				}
+				n++
+				ord++
+				r.Check(st.Must("ref-tested"), "C05-R10", fi.Name()+"/return-in-search-loop-follows-a-test-of-the-ref#"+itoa(ord), p.Pos(ret.Pos()), "the return inside the search loop of "+fi.Name()+" is reached only after a condition depending on the searched ref",
+					"the helper answers from inside its loop without having compared anything with the node it was asked about: it answers for the first non-empty container, not for the one holding the node — the printer then places separators and parentheses of a later operation wrongly (`query B($b: Int, ($c: Int)`), output the parser rejects")
+			},
+		}
+		in.Run(nil)
+	}
+	r.Expect("C05-R10", "returns inside search loops of printer position helpers", n, 3)
 }
